@@ -512,10 +512,32 @@ fn oracle(model: &mut Model, before: &Snap, after: &Snap, notified: &BTreeSet<De
         }
     }
     let mut any_reload = false;
-    for (k, (v1, id1)) in after {
+    // the assets the pass must visit first (they may register new nodes), the others afterwards
+    let order: Vec<&Key> = after.keys().filter(|k| aff.contains(*k) && model.cache[*k].dynamic).chain(after.keys().filter(|k| !(aff.contains(*k) && model.cache[*k].dynamic))).collect();
+    for k in order {
+        let (v1, id1) = &after[k];
         let (v0, id0) = &before[k];
         let dynamic = model.cache[k].dynamic;
         if !aff.contains(k) || !dynamic {
+            if static_mode && dynamic && (v1 != v0 || id1 != id0) {
+                // 'static mode runs one pass per received notification: a notification that was not acceptable when
+                // it was sent may have become acceptable through what an earlier pass of the same round registered.
+                // Such assets MAY have been reloaded (it depends on the order of arrival); if so, to a fresh value.
+                let late: BTreeSet<Dep> = model.accepted(notified);
+                let aff_late = model.affected(&late);
+                if aff_late.contains(k) {
+                    let (fresh, deps, m2) = model.fresh(k.0, &k.1);
+                    if let Ok(s) = fresh {
+                        if crate::model::masked_eq(v1, &s) && id1 > id0 {
+                            detsim::count("reach.static_mode_late_acceptance");
+                            model.reg = m2.reg;
+                            model.nodes = m2.nodes;
+                            model.register(k, deps);
+                            continue;
+                        }
+                    }
+                }
+            }
             detsim::check(v1 == v0 && id1 == id0, "graph/reloaded-without-cause", || format!("round {ri}: {k:?} went from {v0:?}/{id0} to {v1:?}/{id1} but no entry it depends on was notified (notified {notified:?}, accepted {accepted:?})"));
             continue;
         }
